@@ -108,6 +108,12 @@ def extra_strings(desc):
                 yield "$['\\u" + h + "']"
                 yield '$["\\u' + h.upper() + '"]'
                 yield "$[?@ == '\\u" + h[:2].upper() + h[2:] + "']"
+        if desc["lo"] == 0:
+            # surrogate-pair escapes at every boundary of the two ranges
+            for hi in (0xD800, 0xD801, 0xD83D, 0xDBFE, 0xDBFF):
+                for lo in (0xDC00, 0xDC01, 0xDE00, 0xDFFE, 0xDFFF):
+                    yield "$['\\u%04X\\u%04x']" % (hi, lo)
+                    yield '$[?@ == "a\\u%04x\\u%04Xz"]' % (hi, lo)
     elif sp == "numbers":
         for a in NUM_INT:
             for b in NUM_FRAC:
